@@ -217,7 +217,29 @@ def _encode_stub_env(fx, it, guessed, seg=None, level=None):
         rec['_encode'] = {n_: vals[n_] for n_ in ref[1:6]}
         rec['_encode_segments'] = vals['segments']
         return ('CODE', vals['version'], vals['error'], vals['mask'])
-    genv = encoder_env(fx.forest, it, prepare_data=prepare_data, find_version=find_version, _encode=_encode)
+    try:
+        have = src.all_params(fx.fn('encoder', '_encode'))
+    except Unknown:
+        have = None
+    if have == ref:
+        genv = encoder_env(fx.forest, it, prepare_data=prepare_data, find_version=find_version, _encode=_encode)
+        return genv, rec
+    # The private entry point was reorganised: what `encode` asks for is read off the leaf stages of symbol creation instead
+    # (level given to the booster or, without boosting, to the final message; version of the final message; mask requested
+    # from the mask stage; ECI flag of the segment writer).
+    from .models import SymbolTrace
+
+    def code_result(n_, sym):
+        if sym['problems']:
+            raise Unknown('symbol creation could not be traced from stage to stage: ' + '; '.join(sym['problems']))
+        boost = sym['boost']
+        eci = sym['eci'][0] if len(sym['eci']) == 1 else tuple(sym['eci'])
+        rec['_encode'] = dict(error=boost['error'] if boost is not None else sym['final']['error'], version=sym['final']['version'],
+                              mask=sym['mask_requested'], eci=eci, boost_error=boost is not None)
+        rec['_encode_segments'] = sym['code']['segments']
+        return ('CODE', rec['_encode']['version'], rec['_encode']['error'], rec['_encode']['mask'])
+    trace = SymbolTrace(fx, code_result=code_result)
+    genv = trace.bind(encoder_env(fx.forest, it, prepare_data=prepare_data, find_version=find_version, **trace.env), it)
     return genv, rec
 
 
